@@ -618,6 +618,8 @@ fn merge_vs_ops(action: usize, point: Option<&Point>, fault_mode: Option<usize>)
     if !fired {
         run_action();
     }
+    // the action thread has ended by now: a fault it armed late must not outlive the scenario
+    sim.set_fault(None);
     res.violations.extend(action_errors.lock().unwrap().drain(..));
     crate::hist::wait_merges_quiescent();
     let mut d = drv.lock().unwrap();
